@@ -206,7 +206,9 @@ func buildAPK(env *Env, v Variant) ([]*Artifact, error) {
 	pol := jarPolicy()
 	v2 := "APK Signature Scheme v2 covers every byte outside the signing block"
 	pol.replace = func(name, role string) (bool, string) { return yes(v2) }
-	pol.insert = func(name, where string) (bool, string) { return yes(v2 + "; Android also refuses unsigned entries under v1") }
+	pol.insert = func(name, where string) (bool, string) {
+		return yes(v2 + "; Android also refuses unsigned entries under v1")
+	}
 	pol.remove = func(name, role string) (bool, string) { return yes(v2) }
 	pol.rename = func(name, role string) (bool, string) { return yes(v2) }
 	pol.appendAfter = [2]string{"", "Android requires the EOCD (with its comment) to end the file: an APK with trailing bytes is not installable, so the platform never consumes it"}
